@@ -1018,6 +1018,9 @@ def cmd_usigns(a, cell=None):
         out += chk_big(P, res.get('to_bigint_s'), a, 'BigUint::to_bigint (stale capacity)', 'I')
         out += chk_big(P, res.get('from_s'), a, 'BigInt::from(BigUint) (stale capacity)', 'I')
         out += chk_big(P, res.get('to_bigint_h'), a, 'BigUint::to_bigint (value with a history)', 'I')
+        for nm, raw in res.named.items():
+            if nm[:3] in ('zr_', 'zf_', 'zb_'):
+                out += chk_big(P, res.get(nm), 0, {'zr_': 'to_bigint', 'zf_': 'BigInt::from', 'zb_': 'from_biguint(Plus, ..)'}[nm[:3]] + ' of a zero reached by ' + nm[3:], 'I')
         out += chk_eq(P, res.get('is_zero'), a == 0, 'is_zero')
         out += chk_eq(P, res.get('is_one'), a == 1, 'is_one')
         out += chk_big(P, res.get('set_zero'), 0, 'set_zero', 'U')
